@@ -40,8 +40,8 @@ def spanDigits : Bytes → Bytes × Bytes
 
 /-- optional leading `-` -/
 def optMinus : Bytes → Bytes × Bytes
-  | 0x2D :: r => ([0x2D], r)
-  | b => ([], b)
+  | c :: r => if c == 0x2D then ([c], r) else ([], c :: r)
+  | [] => ([], [])
 
 /-! ## tokIntRule -/
 
